@@ -48,7 +48,9 @@ def TInv (resume : Bool) (c : Ctl) (th : BThread) : Prop :=
   ((c.pc = .finalIn ∨ c.pc = .returned) → th.pc = .done) ∧
   (th.inWait = true → th.inCb = none) ∧
   (th.raised = true → th.pc = .exc ∨ th.pc = .excHeld ∨ th.excFlag = true) ∧
-  (th.pc = .new → th.inCb = none ∧ th.pausedFlag = false ∧ th.excFlag = false)
+  (th.pc = .new → th.inCb = none ∧ th.pausedFlag = false ∧ th.excFlag = false) ∧
+  (th.excFlag = true → th.raised = true) ∧
+  ((th.pc = .exc ∨ th.pc = .excHeld) → th.raised = true)
 
 /-- Control-thread part of the invariant. -/
 def CInv (resume clockPaused : Bool) (c : Ctl) : Prop :=
@@ -67,6 +69,10 @@ def CInv2 (resume shutdown clockPaused : Bool) (c : Ctl) : Prop :=
   ((c.pc = .sdSet ∨ c.pc = .sdShut ∨ c.pc = .sdDone) → clockPaused = false ∧ c.paused = false) ∧
   (c.pc = .sdDone → shutdown = true) ∧
   ((c.pc = .finalIn ∨ c.pc = .returned) → c.stopped = true) ∧
+  (shutdown = true → c.cause = true ∨ c.mustStop = true) ∧
+  ((c.pc = .sdSet ∨ c.pc = .sdShut) → c.cause = true ∨ c.mustStop = true) ∧
+  (c.pc = .sdClock → c.cause = true ∨ c.mustStop = true ∨ c.stopped = true) ∧
+  (c.mustStop = true → c.faultSeen = true ∨ c.ctlFault = true) ∧
   (c.stopped = true → clockPaused = false ∧ c.paused = false ∧ shutdown = true ∧
      (c.pc = .idle ∨ c.pc = .sdClock ∨ c.pc = .sdDone ∨ c.pc = .finalIn ∨ c.pc = .returned))
 
@@ -500,6 +506,14 @@ theorem cstep_inv {s s' : St} {a : Act} (h : HInv s) (hs : cstep s a = some s') 
       · contradiction
     · contradiction
   case cExc =>
+    split at hs
+    · cases hs; ctl_same h
+    · contradiction
+  case cCmdShutdown =>
+    split at hs
+    · cases hs; ctl_same h
+    · contradiction
+  case cUptime =>
     split at hs
     · cases hs; ctl_same h
     · contradiction
